@@ -10,7 +10,7 @@ uses::
 It accepts EXACTLY the subset the specification gives a meaning to and raises ``OutsideSubset(reason)`` for
 anything else (keyword arguments, attribute/subscript targets, comprehensions, strings, unknown calls ...):
   statements   docstring / pass (dropped), import / from-import inside the body (resolved, dropped),
-               x = e, x op= e, return e, if/elif/else, while, for x in range(<int literal>)
+               x = e, x1 = x2 = e, x op= e, return e, if/elif/else, while, for x in range(<int literal>)
   expressions  int / float literals (decimal value as exact rational), names (locals, module-level numbers,
                imported numbers), + - * / ** // %, unary - +, not, and/or, comparisons incl. chains, conditional
                expression, abs/min/max, calls of plain Python functions reachable through the module's globals or
@@ -208,9 +208,12 @@ class _Enc:
                     self.locals.discard(al.asname or al.name)
                 continue
             if isinstance(s, ast.Assign):
-                if len(s.targets) != 1 or not isinstance(s.targets[0], ast.Name):
+                if not all(isinstance(t, ast.Name) for t in s.targets):
                     raise OutsideSubset("assignment target")
-                out.append({"k": "assign", "name": s.targets[0].id, "e": self.expr(s.value)})
+                if len(s.targets) == 1:
+                    out.append({"k": "assign", "name": s.targets[0].id, "e": self.expr(s.value)})
+                else:
+                    out.append({"k": "chain", "names": [t.id for t in s.targets], "e": self.expr(s.value)})
             elif isinstance(s, ast.AugAssign):
                 if not isinstance(s.target, ast.Name) or type(s.op) not in BINOPS:
                     raise OutsideSubset("augmented assignment")
